@@ -34,6 +34,7 @@ func verif_logAppend(l ipfslog.Log, value []byte) ipfslog.Entry { panic("intrins
 func verif_logPermute(l ipfslog.Log)                          { panic("intrinsic") }
 func verif_logCopy(l ipfslog.Log) ipfslog.Log                 { panic("intrinsic") }
 func verif_logView(l ipfslog.Log) ipfslog.Log                 { panic("intrinsic") }
+func verif_logShare(dst ipfslog.Log, e ipfslog.Entry) bool    { panic("intrinsic") }
 
 func verifSecretStore(name string) secretstore.SecretStore {
 	s, err := secretstore.NewSecretStore(verif_datastore(name), &secretstore.NewSecretStoreOptions{
